@@ -16,7 +16,7 @@ SetClauses(e) ==
   (IF e.raised THEN {"raised-instead-of-clamping"} ELSE
    (IF \E i \in 1..Len(e.cmds) : ~e.cmds[i].exact \/ ~CmdOK(Strip(e.cmds[i])) THEN {"command-out-of-range"} ELSE {}) \cup
    (IF [i \in 1..Len(e.cmds) |-> Strip(e.cmds[i])] # SetCmds(e.q, e.req, e.scalar, e.sel) THEN {"commands-differ"} ELSE {}) \cup
-   (IF e.warned # SetWarn(e.q, e.req, e.scalar, e.sel) THEN {"warning"} ELSE {}))
+   (IF ~WarnOK(e.q, e.req, e.scalar, e.sel, e.warned) THEN {"warning"} ELSE {}))
 DataClauses(e) ==
   (IF e.raised THEN {"raised"} ELSE
    (IF \E i \in 1..Len(e.cmds) : ~BlockOK(e.cmds[i]) THEN {"block-header-or-size"} ELSE {}) \cup
